@@ -37,30 +37,71 @@ static const char *key(int fmt, const char *what)
 	return kbuf;
 }
 
-#define MAXMSG 700
+#define MAXMSG 1300
+#define MAXMSGS 8
+#define BIGMAX 70001
 
-uint64_t vf_cases(void) { return vf_thorough ? 400000 : 12000; }
+/* counting wrapper around the real encoder: what was consumed is known exactly */
+static enc_t wrap_real;
+static size_t wrap_consumed, wrap_progress;
+static ssize_t enc_wrap(mpt::encode_state *st, const struct iovec *to, const struct iovec *from)
+{
+	ssize_t r = wrap_real(st, to, from);
+	if (to && from && r > 0) { wrap_consumed += (size_t) r; wrap_progress++; }
+	return r;
+}
+
+uint64_t vf_cases(void) { return vf_thorough ? 400000 : 16000; }
+
+static size_t fill_message(vf_rng *r, int fmt, uint8_t *m, size_t lo, size_t hi)
+{
+	size_t n = 0;
+	for (int t = 0; t < 4 && n < lo; t++) n = gen_message(r, fmt, m, hi);
+	if (n < lo) {
+		n = lo + vf_below(r, (uint32_t) (hi - lo) + 1);
+		gen_pattern(r, fmt, (int) vf_below(r, 6), m, n);
+	}
+	return n;
+}
 
 void vf_case(uint64_t, vf_rng *r)
 {
-	static uint8_t msg[3][MAXMSG];
+	static uint8_t msgbuf[MAXMSGS][MAXMSG], bigbuf[BIGMAX + 8];
 	static size_t cut[GEN_MAXPIECES];
-	size_t mlen[3];
+	const uint8_t *msg[MAXMSGS];
+	size_t mlen[MAXMSGS];
 	int fmt = (int) vf_below(r, RC_NFMT);
-	unsigned nmsg = vf_chance(r, 1, 2) ? 1 : 1 + vf_below(r, 3);
+	int history = vf_chance(r, 1, 2);
+	unsigned nmsg = history ? 3 + vf_below(r, MAXMSGS - 2) : (vf_chance(r, 1, 2) ? 1 : 1 + vf_below(r, 3));
+	int big = !history && vf_chance(r, 1, 150);
 	std::vector<uint8_t> expect_frames;
+	size_t released = 0;          /* finished bytes handed to the consumer with shift() */
 	bool nontrivial = false;
 
-	mpt::encode_array arr(enc_fn[fmt]);
-	vf_fp_u64(0xC01C00 + fmt);
+	wrap_real = enc_fn[fmt];
+	mpt::encode_array arr(enc_wrap);
+	vf_fp_u64(0xC01C00 + fmt + 16 * history);
 	size_t done_prev = 0;
+	if (big) nmsg = 1;
 	for (unsigned i = 0; i < nmsg; i++) {
-		size_t n = mlen[i] = vf_chance(r, 1, 12) ? 0 : gen_message(r, fmt, msg[i], nmsg > 1 ? 300 : MAXMSG);
-		int split = (int) vf_below(r, 4);
+		size_t n;
+		if (big) {
+			n = vf_chance(r, 1, 2) ? (vf_chance(r, 1, 2) ? 40000 : 70001) : 30000 + vf_below(r, BIGMAX - 30000 + 1);
+			for (size_t k = 0; k < n; k++) bigbuf[k] = (uint8_t) (1 + (k * 7 + 3) % 250);
+			msg[i] = bigbuf;
+		} else {
+			if (history) n = (i + 1 < nmsg) ? fill_message(r, fmt, msgbuf[i], 40, 200) : fill_message(r, fmt, msgbuf[i], 150, MAXMSG - 50);
+			else n = vf_chance(r, 1, 12) ? 0 : gen_message(r, fmt, msgbuf[i], nmsg > 1 ? 300 : 700);
+			msg[i] = msgbuf[i];
+		}
+		mlen[i] = n;
+		int split = big ? 0 : (history ? (vf_chance(r, 2, 3) ? 0 : (int) vf_below(r, 4)) : (int) vf_below(r, 4));
 		size_t np = gen_split(r, msg[i], n, split, cut), pos = 0;
+		const bool single = (np == 1);
 		vf_fp(msg[i], n); vf_fp_u64(split);
 		if (n && (memchr(msg[i], 0, n) || n >= 222 || np > 1)) nontrivial = true;
-		if (np >= 1 && np <= 9 && vf_chance(r, 1, 3)) {
+		wrap_consumed = wrap_progress = 0;
+		if (np >= 1 && np <= 9 && vf_chance(r, 1, 2)) {
 			/* hand the pieces over as one fragmented mpt::message */
 			struct iovec frag[20];
 			uint8_t *blk[20];
@@ -78,27 +119,44 @@ void vf_case(uint64_t, vf_rng *r)
 			mm.cont = frag; mm.clen = nf - 1;
 			vf_at("encode_array::push(message)");
 			vf_count("encode_array::push(message)", 1);
-			alarm(5);   /* a spinning push() grows the array without bound: stop it early */
+			alarm(20);   /* a spinning push() grows the array without bound: stop it early */
 			bool ok = arr.push(mm);
 			alarm(0);
-			vf_log("%s push(message of %zu fragments) = %d", rc_name[fmt], nf, (int) ok);
+			vf_log("%s push(message of %zu bytes in %zu fragments) = %d, encoder consumed %zu", rc_name[fmt], n, nf, (int) ok, wrap_consumed);
 			for (size_t k = 0; k < nf; k++) vf_xfree(blk[k], bl[k]);
 			VF_CHECK(ok, key(fmt, "push-message-refused"), "push(message) with %zu fragments failed for message %u (%zu bytes) %s", nf, i, n, vf_hex(hx1, sizeof(hx1), msg[i], n));
 			np = 0;
 		}
 		for (size_t p = 0; p < np; p++) {
+			/* caller that advances by the returned size */
 			size_t l = cut[p] - pos;
-			uint8_t *src = static_cast<uint8_t *>(vf_xalloc(l));
-			memcpy(src, msg[i] + pos, l);
-			vf_at("encode_array::push");
-			vf_count("encode_array::push", 1);
-			ssize_t rr = arr.push(l, src);
-			vf_log("%s push(%zu) = %zd", rc_name[fmt], l, rr);
-			vf_xfree(src, l);
-			VF_CHECK(rr == (ssize_t) l, key(fmt, "push-refused"), "push(%zu) = %zd for piece %zu of message %u (%zu bytes) %s", l, rr, p, i, n,
-			         vf_hex(hx1, sizeof(hx1), msg[i], n));
+			const uint8_t *ptr = msg[i] + pos;
+			int rounds = 0;
+			while (l) {
+				uint8_t *src = static_cast<uint8_t *>(vf_xalloc(l));
+				size_t before = wrap_consumed;
+				memcpy(src, ptr, l);
+				vf_at("encode_array::push");
+				vf_count("encode_array::push", 1);
+				ssize_t rr = arr.push(l, src);
+				vf_log("%s push(%zu) = %zd, encoder consumed %zu", rc_name[fmt], l, rr, wrap_consumed - before);
+				vf_xfree(src, l);
+				VF_CHECK(rr > 0 && (size_t) rr <= l && ++rounds < 64, key(fmt, "push-refused"), "push(%zu) = %zd for piece %zu of message %u (%zu bytes) %s", l, rr, p, i, n,
+				         vf_hex(hx1, sizeof(hx1), msg[i], n));
+				VF_CHECK((size_t) rr == wrap_consumed - before, key(fmt, "return-differs-from-consumed"),
+				         "push(%zu) returned %zd but the encoder consumed %zu bytes (message %u, %zu bytes released in front)", l, rr, wrap_consumed - before, i, released);
+				vf_count("monitor:push-return-vs-consumed", 1);
+				ptr += rr; l -= (size_t) rr;
+			}
 			pos = cut[p];
 		}
+		/* every message byte must have gone through the encoder exactly once */
+		VF_CHECK(wrap_consumed == n, key(fmt, "consumed-differs-from-message"),
+		         "message %u has %zu bytes, the encoder was given %zu bytes in total (%zu progressing calls, %zu bytes released in front of the buffer)",
+		         i, n, wrap_consumed, wrap_progress, released);
+		vf_count("monitor:consumed-equals-message", 1);
+		if (wrap_progress >= 3) vf_count("state:message-with-3+-progressing-encoder-calls", 1);
+		if (single && wrap_progress >= 3) vf_count("state:single-piece-with-3+-progressing-encoder-calls", 1);
 		vf_at("encode_array::push");
 		vf_count("encode_array::push", 1);
 		ssize_t rr = arr.push(0, 0);
@@ -119,12 +177,27 @@ void vf_case(uint64_t, vf_rng *r)
 		VF_CHECK(v == RC_OK && dl == n + hdr && !memcmp(dec.data() + hdr, msg[i], n), key(fmt, "reference-decode-differs"),
 		         "reference decoder: verdict %d, %zu bytes; message %zu bytes %s; frame %zu bytes %s", v, dl, n, vf_hex(hx1, sizeof(hx1), msg[i], n),
 		         flen, vf_hex(hx2, sizeof(hx2), f, flen));
-		/* earlier frames still there */
-		VF_CHECK(expect_frames.empty() || !memcmp(d.begin(), expect_frames.data(), expect_frames.size()), key(fmt, "earlier-frames-changed"),
-		         "finished bytes in front of message %u changed", i);
+		/* earlier, not yet released frames still there */
+		VF_CHECK(released + done_prev == expect_frames.size() && (!done_prev || !memcmp(d.begin(), expect_frames.data() + released, done_prev)), key(fmt, "earlier-frames-changed"),
+		         "finished bytes in front of message %u changed (%zu released, %zu kept, %zu produced)", i, released, done_prev, expect_frames.size());
 		expect_frames.insert(expect_frames.end(), f, f + flen);
 		done_prev = done;
 		vf_count("monitor:frame-shape+reference-decode", 1);
+		/* consumer takes finished bytes and releases them: they stay in front of the array buffer */
+		if (vf_chance(r, history ? 7 : 4, 8)) {
+			size_t k = vf_chance(r, 3, 4) ? done : 1 + vf_below(r, (uint32_t) done);
+			vf_at("encode_array::shift");
+			vf_count("encode_array::shift", 1);
+			bool ok = arr.shift(k);
+			VF_CHECK(ok, key(fmt, "shift-refused"), "shift(%zu) refused with %zu finished bytes", k, done);
+			mpt::span<const uint8_t> d2 = arr.data();
+			VF_CHECK(d2.size() >= 0 && (size_t) d2.size() == done - k
+			         && (done == k || !memcmp(d2.begin(), expect_frames.data() + released + k, done - k)), key(fmt, "shift-result"),
+			         "after shift(%zu) of %zu finished bytes data() has %ld bytes / other content", k, done, (long) d2.size());
+			released += k;
+			done_prev = done - k;
+			if (released >= 256) vf_count("state:256+-released-bytes-in-front", 1);
+		}
 	}
 	/* library decoder over the finished bytes, linear buffer with slack in front */
 	{
@@ -163,5 +236,6 @@ void vf_case(uint64_t, vf_rng *r)
 		vf_xfree(buf, n);
 	}
 	if (nontrivial) vf_nontrivial();
-	vf_sample("encode_array(%s): %u message(s), first %zu bytes %s -> %zu finished bytes", rc_name[fmt], nmsg, mlen[0], vf_hex(hx1, 80, msg[0], mlen[0]), expect_frames.size());
+	vf_sample("encode_array(%s)%s: %u message(s) handed over by push(len,data) loops advancing by the return value or as fragmented mpt::message, %zu bytes released with shift() in between; last message %zu bytes %s -> %zu frame bytes in total",
+	          rc_name[fmt], history ? " producer/consumer history" : "", nmsg, released, mlen[nmsg - 1], vf_hex(hx1, 80, msg[nmsg - 1], mlen[nmsg - 1]), expect_frames.size());
 }
